@@ -434,8 +434,8 @@ end generic
     * (identity branch) `sin(Θ/2) = 0`, `quat a * quat b = ±1`, and `r` is the identity rotation
       (`quat r = 1`; the phase `a.phase + b.phase` is dropped — a global phase), or
     * (general branch) `r.axis` is the un-rounded unit axis, `quat r = ± quat a * quat b` (sign from `normalizeAngle`
-      shifting `Θ` by a multiple of `2π`), `r.phase ≡ a.phase + b.phase (mod 2π)`, and the name is as in
-      `compose_name`. -/
+      shifting `Θ` by a multiple of `2π`), `r.phase ≡ a.phase + b.phase (mod 2π)`, the name is as in
+      `compose_name`, and `r.angle = normalizeAngle atol Θ`. -/
 theorem compose_crisp (atol : ℝ) (hatol : 0 < atol) (a b r : Rot ℝ)
     (ha : UnitVec a.axis) (hb : UnitVec b.axis)
     (h : composeRot atol a b = .ok r)
@@ -451,7 +451,8 @@ theorem compose_crisp (atol : ℝ) (hatol : 0 < atol) (a b r : Rot ℝ)
         ∧ r.axis = cAxis a b ∧ UnitVec r.axis
         ∧ (r.quat = a.quat * b.quat ∨ r.quat = -(a.quat * b.quat))
         ∧ (∃ m : ℤ, r.phase = a.phase + b.phase + m * (2 * Real.pi))
-        ∧ r.nm = (if a.isIdentity atol then b.nm else if b.isIdentity atol then a.nm else none))) := by
+        ∧ r.nm = (if a.isIdentity atol then b.nm else if b.isIdentity atol then a.nm else none)
+        ∧ r.angle = normalizeAngle atol (cTheta a b))) := by
   obtain ⟨hq, hrq⟩ := compose_ok_same_qubit atol a b r h
   refine ⟨hq, hrq, ?_⟩
   rw [composeRot_real atol a b ha hb hq] at h
@@ -471,7 +472,7 @@ theorem compose_crisp (atol : ℝ) (hatol : 0 < atol) (a b r : Rot ℝ)
     simp only [Except.map] at h
     injection h with h
     subst h
-    refine ⟨hs, hne, rfl, hu, ?_, ?_, rfl⟩
+    refine ⟨hs, hne, rfl, hu, ?_, ?_, rfl, rfl⟩
     · obtain ⟨m, hm⟩ := normalizeAngle_shift atol (cTheta a b)
       simp only [Rot.quat, hm]
       have := quat_shift (cAxis a b) (cTheta a b) m
